@@ -180,6 +180,8 @@ assert implies(table.retention_policy == RetentionPolicy.ALL, forall(lambda x, y
             out.append(f"assert not ({star}._value < {NEWV})")
             out.append(f"""assert forall(lambda x, y: implies(anc({R1}, x) and anc({R2}, y) and {TERM('x', 'y')} == {NEWV} and is_fin({NEWV}),
                                {P1('x')} == {e1}._value and {P2('y')} == {e2}._value and {star}._value == {NEWV}), Node, Node)""")
+        for star, e1, R1, c1, e2, R2, c2 in stars:
+            out.append(f"assert implies(table.retention_policy == RetentionPolicy.ALL, forall(lambda t: implies(t in {star}._infos and {star}._value == {NEWV} and is_fin({NEWV}), {NEWT}), Tag))")
         names = [s[0] for s in stars]
         out.append(f"assert {NEWV} == {OLDV} or " + " or ".join(f"{NEWV} == {n}._value" for n in names))
         srcs = " or ".join(f"(t in {n}._infos and {n}._value == {NEWV} and is_fin({NEWV}))" for n in names)
@@ -221,3 +223,154 @@ assert forall(lambda t: implies(t in star1._infos, exists(lambda i: 0 <= i and i
                                       ("star1", "min_ltr", "right_species", "left_node", "min_rtl", "left_species", "right_node")], "place_spe")],
         canary=f"{NEWV} == {OLDV}",
         props=["C01", "C05"]))
+
+
+def _dup_transfer(E):
+    """Bellman contract of _compute_thl_try_duplication_transfer: duplications (both children below s) and the two transfer shapes
+    (one child below s, the other in a species incomparable with s), one loop over the whole species tree with a filter per aggregator."""
+    add = E.registry.add
+    G = {"inf": E.globals["inf"]}
+    TREE = "species_lca.tree"
+    SEP = lambda x: f"(not anc(root_species, {x}) and not anc({x}, root_species))"
+    SUB = lambda x: f"anc(root_species, {x})"
+    GV0, GT0 = "old(table.g_val)", "old(table.g_tags)"
+    U, S = "root_node", "root_species"
+    L, R = f"left({U})", f"right({U})"
+    NEWV, OLDV = f"cellv(table.g_val, {U}, {S})", f"cellv({GV0}, {U}, {S})"
+    NEWT, OLDT = f"cellt(table.g_val, table.g_tags, {U}, {S}, t)", f"cellt({GV0}, {GT0}, {U}, {S}, t)"
+    NEWT_OF = lambda t: f"cellt(table.g_val, table.g_tags, {U}, {S}, {t})"
+
+    WFE = lambda e: [
+        (f"{e}/policies", f"{e}._merge_policy == MergePolicy.MIN and {e}._retention_policy == table.retention_policy"),
+        (f"{e}/wf-any", f"implies({e}._retention_policy == RetentionPolicy.ANY, forall(lambda t, t2: implies(t in {e}._infos and t2 in {e}._infos, t == t2), Tag, Tag))"),
+        (f"{e}/wf-truthy", f"forall(lambda t: implies(t in {e}._infos, tag_truthy(t)), Tag)"),
+    ]
+    # placement values as the code's tables hold them (current table == old table until the final update)
+    PD = lambda gv, fl, c, x: f"place_dup({gv}, {fl}, root_species, {c}, {x})"
+    PS = lambda gv, c, x: f"cellv({gv}, {c}, {x})"
+
+    def AGG(e, filt, F, k):
+        IN = lambda x: f"(anc({TREE}, {x}) and lvl_idx({TREE}, {x}) < {k} and {filt(x)})"
+        W = "node_of_tag(t)"
+        return WFE(e) + [
+            (f"{e}/lower", f"forall(lambda x: implies({IN('x')}, not ({F('x')} < {e}._value)), Node)"),
+            (f"{e}/attained", f"{e}._value == inf or exists(lambda x: {IN('x')} and {F('x')} == {e}._value, Node)"),
+            (f"{e}/tags-sound", f"forall(lambda t: implies(t in {e}._infos, {IN(W)} and {F(W)} == {e}._value and t == tag_of_node({W})), Tag)"),
+            (f"{e}/tags-all-complete", f"implies(table.retention_policy == RetentionPolicy.ALL, forall(lambda x: implies({IN('x')} and {F('x')} == {e}._value, tag_of_node(x) in {e}._infos), Node))"),
+            (f"{e}/nonempty", f"implies(exists(lambda x: {IN('x')}, Node), exists(lambda t: t in {e}._infos, Tag))"),
+            (f"{e}/empty-is-inf", f"implies(not exists(lambda t: t in {e}._infos, Tag), {e}._value == inf)"),
+        ]
+
+    CUR = "table.g_val"
+    ENT = {  # entry -> (filter, value of a placement in the loop's vocabulary, same in the postcondition's vocabulary, child)
+        "min_ltc": (SUB, lambda x: PD(CUR, "loss_cost", "left_node", x), lambda x: PD(GV0, "costs[Event.FULL_LOSS]", L, x)),
+        "min_rtc": (SUB, lambda x: PD(CUR, "loss_cost", "right_node", x), lambda x: PD(GV0, "costs[Event.FULL_LOSS]", R, x)),
+        "min_lts": (SEP, lambda x: PS(CUR, "left_node", x), lambda x: PS(GV0, L, x)),
+        "min_rts": (SEP, lambda x: PS(CUR, "right_node", x), lambda x: PS(GV0, R, x)),
+    }
+    INV = []
+    for e, (filt, F, _) in ENT.items():
+        INV += AGG(e, filt, F, "k")
+    STARS = [("star0", "min_ltc", "min_rtc", "dup_cost"), ("star1", "min_lts", "min_rtc", "hgt_cost"), ("star2", "min_ltc", "min_rts", "hgt_cost")]
+    COSTS = {"dup_cost": "costs[Event.DUPLICATION]", "hgt_cost": "costs[Event.HORIZONTAL_TRANSFER]"}
+    FAM = []  # (condition(x, y), term(x, y)) in the postcondition's vocabulary, one per star
+    for star, e1, e2, cost in STARS:
+        f1, _, P1 = ENT[e1]
+        f2, _, P2 = ENT[e2]
+        FAM.append((lambda x, y, f1=f1, f2=f2: f"({f1(x)} and {f2(y)})",
+                    lambda x, y, P1=P1, P2=P2, cost=cost: f"({COSTS[cost]} + {P1(x)} + {P2(y)})"))
+    PLACED = lambda x, y: "(" + " or ".join(c(x, y) for c, _ in FAM) + ")"
+    TERM = lambda x, y: f"({FAM[0][1](x, y)} if {FAM[0][0](x, y)} else ({FAM[1][1](x, y)} if {FAM[1][0](x, y)} else {FAM[2][1](x, y)}))"
+    INTREE = lambda x, y: f"rootof({x}) == {TREE} and rootof({y}) == {TREE}"
+    WX, WY = "mi_left(t)", "mi_right(t)"
+    NEW_OF = lambda x, y: f"({INTREE(x, y)} and {PLACED(x, y)} and {TERM(x, y)} == {NEWV} and is_fin({NEWV}))"
+    FRAME_T = ("frame", f"""forall(lambda a, b: implies(a != {U} or b != {S},
+                  cellv(table.g_val, a, b) == cellv({GV0}, a, b)
+                  and forall(lambda t: cellt(table.g_val, table.g_tags, a, b, t) == cellt({GV0}, {GT0}, a, b, t), Tag)), Node, Node)""")
+    POST = [
+        ("bellman/not-worse-than-old", f"not ({OLDV} < {NEWV})"),
+        ("bellman/lower-bound", f"forall(lambda x, y: implies({INTREE('x', 'y')} and {PLACED('x', 'y')}, not ({TERM('x', 'y')} < {NEWV})), Node, Node)"),
+        ("bellman/attained", f"{NEWV} == {OLDV} or exists(lambda x, y: {INTREE('x', 'y')} and {PLACED('x', 'y')} and {TERM('x', 'y')} == {NEWV}, Node, Node)"),
+        ("bellman/tags-sound", f"forall(lambda t: implies({NEWT}, ({OLDT} and {OLDV} == {NEWV}) or ({NEW_OF(WX, WY)} and t == mi({WX}, {WY}))), Tag)"),
+        ("bellman/tags-all-complete-new", f"implies(table.retention_policy == RetentionPolicy.ALL, forall(lambda x, y: implies({NEW_OF('x', 'y')}, {NEWT_OF('mi(x, y)')}), Node, Node))"),
+        ("bellman/tags-all-complete-old", f"implies(table.retention_policy == RetentionPolicy.ALL, forall(lambda t: implies({OLDT} and {OLDV} == {NEWV}, {NEWT}), Tag))"),
+        ("bellman/tags-any-nonempty", f"""implies(table.retention_policy == RetentionPolicy.ANY and (exists(lambda t: {OLDT} and {OLDV} == {NEWV}, Tag)
+               or exists(lambda x, y: {NEW_OF('x', 'y')}, Node, Node)), exists(lambda t: {NEWT}, Tag))"""),
+        ("bellman/tags-any-single", f"implies(table.retention_policy == RetentionPolicy.ANY, forall(lambda t, t2: implies({NEWT} and {NEWT_OF('t2')}, t == t2), Tag, Tag))"),
+        FRAME_T,
+    ]
+
+    # ---- cuts
+    ATEND = lambda x: f"(anc({TREE}, {x}) and {{F}})"
+    before = []
+    for star, e1, e2, cost in STARS:
+        f1, F1, _ = ENT[e1]
+        f2, F2, _ = ENT[e2]
+        OPT = lambda x, y: f"(anc({TREE}, {x}) and {f1(x)} and anc({TREE}, {y}) and {f2(y)} and {F1(x)} == {e1}._value and {F2(y)} == {e2}._value)"
+        before += [
+            f"assert {star}._value == {cost} + {e1}._value + {e2}._value",
+            f"assert implies(exists(lambda a: a in {e1}._infos, Tag) and exists(lambda b: b in {e2}._infos, Tag), exists(lambda t: t in {star}._infos, Tag))",
+            f"assert implies(not (exists(lambda a: a in {e1}._infos, Tag) and exists(lambda b: b in {e2}._infos, Tag)), {star}._value == inf and not exists(lambda t: t in {star}._infos, Tag))",
+            f"assert forall(lambda t: implies(t in {star}._infos, {OPT('mi_left(t)', 'mi_right(t)')} and t == mi(mi_left(t), mi_right(t))), Tag)",
+            f"assert implies(table.retention_policy == RetentionPolicy.ALL, forall(lambda x, y: implies({OPT('x', 'y')}, mi(x, y) in {star}._infos), Node, Node))",
+        ]
+    names = [s[0] for s in STARS]
+    for n in names:
+        before.append(f"assert implies(exists(lambda t: t in {n}._infos, Tag), exists(lambda i: 0 <= i and i < len(arg_candidates) and arg_candidates[i].value == {n}._value and arg_candidates[i].info is not None and the(arg_candidates[i].info) in {n}._infos, Int))")
+    before.append("assert forall(lambda i: implies(0 <= i and i < len(arg_candidates), arg_candidates[i].info is not None and ("
+                  + " or ".join(f"(arg_candidates[i].value == {n}._value and the(arg_candidates[i].info) in {n}._infos)" for n in names) + ")), Int)")
+    for n in names:
+        before.append(f"assert forall(lambda t: implies(t in {n}._infos, exists(lambda i: 0 <= i and i < len(arg_candidates) and arg_candidates[i].value == {n}._value and arg_candidates[i].info == t, Int)), Tag)")
+    end = []
+    for (star, e1, e2, cost), (cond, term) in zip(STARS, FAM):
+        _, _, P1 = ENT[e1]
+        _, _, P2 = ENT[e2]
+        end.append(f"assert not ({star}._value < {NEWV})")
+        end.append(f"""assert forall(lambda x, y: implies({INTREE('x', 'y')} and {cond('x', 'y')} and {term('x', 'y')} == {NEWV} and is_fin({NEWV}),
+                        {P1('x')} == {e1}._value and {P2('y')} == {e2}._value and {star}._value == {NEWV}), Node, Node)""")
+    for (star, e1, e2, cost), (cond, term) in zip(STARS, FAM):
+        # a finite combined value is realised by a placement of its family; under ALL its tags reach the cell when it is the new optimum
+        end.append(f"assert implies(is_fin({star}._value), exists(lambda x, y: {INTREE('x', 'y')} and {cond('x', 'y')} and {term('x', 'y')} == {star}._value, Node, Node))")
+        end.append(f"assert implies(table.retention_policy == RetentionPolicy.ALL, forall(lambda t: implies(t in {star}._infos and {star}._value == {NEWV} and is_fin({NEWV}), {NEWT}), Tag))")
+    for (star, e1, e2, cost), (cond, term) in zip(STARS, FAM):
+        # the ALL-completeness clause, family by family
+        end.append(f"""assert implies(table.retention_policy == RetentionPolicy.ALL, forall(lambda x, y: implies({INTREE('x', 'y')} and {cond('x', 'y')}
+                        and {term('x', 'y')} == {NEWV} and is_fin({NEWV}), {NEWT_OF('mi(x, y)')}), Node, Node))""")
+    end.append(f"assert {NEWV} == {OLDV} or " + " or ".join(f"{NEWV} == {n}._value" for n in names))
+    end.append(f"assert forall(lambda t: implies({NEWT}, ({OLDT} and {OLDV} == {NEWV}) or "
+               + " or ".join(f"(t in {n}._infos and {n}._value == {NEWV} and is_fin({NEWV}))" for n in names) + "), Tag)")
+    norm = lambda xs: "\n".join(" ".join(x.split()) for x in xs) + "\n"
+
+    PRE = [
+        ("species-tree", "binary(species_lca.tree) and rootof(species_lca.tree) == species_lca.tree and rootof(root_species) == species_lca.tree"),
+        ("object-node", "binary(rootof(root_node)) and not leaf(root_node)"),
+        ("costs-present", "Event.SPECIATION in costs and Event.DUPLICATION in costs and Event.HORIZONTAL_TRANSFER in costs and Event.FULL_LOSS in costs"),
+        ("costs", "is_fin(costs[Event.SPECIATION]) and is_fin(costs[Event.DUPLICATION]) and is_fin(costs[Event.FULL_LOSS]) and costs[Event.SPECIATION] >= 0 and costs[Event.DUPLICATION] >= 0 and costs[Event.HORIZONTAL_TRANSFER] >= 0 and costs[Event.FULL_LOSS] >= 0"),
+        ("table-policies", "table.merge_policy == MergePolicy.MIN and table.retention_policy != RetentionPolicy.NONE"),
+        ("table-nonneg", "forall(lambda a, b: not (cellv(table.g_val, a, b) < 0), Node, Node)"),
+    ]
+    STABLE = ["table.g_val == old(table.g_val) and table.g_tags == old(table.g_tags)",
+              "left_node == left(root_node) and right_node == right(root_node)",
+              "dup_cost == costs[Event.DUPLICATION] and hgt_cost == costs[Event.HORIZONTAL_TRANSFER] and loss_cost == costs[Event.FULL_LOSS]"]
+    add(Contract(
+        f"{M}:_compute_thl_try_duplication_transfer",
+        params={"species_lca": "LowestCommonAncestor", "root_species": "Node", "root_node": "Node", "table": "Table", "costs": "Map[Event, Ext]"},
+        requires=PRE, ensures=POST, modifies=["table.g_val", "table.g_tags"], globals=G, fuel=2,
+        loops={0: LoopSpec(header="for other_species in species_lca.tree.traverse()", index="k", length="n", invariants=STABLE + INV)},
+        at={"table[root_node][root_species].update(": [norm([
+            f"assert anc({TREE}, root_species) and 0 <= lvl_idx({TREE}, root_species) and lvl_idx({TREE}, root_species) < size({TREE}) and anc(root_species, root_species)",
+            "assert exists(lambda t: t in min_ltc._infos, Tag)",
+            "assert exists(lambda t: t in min_rtc._infos, Tag)",
+        ])]},
+        before_call={"Table.cell2_update": [norm(before)]},
+        epilogue=[norm(end)],
+        canary=f"{NEWV} == {OLDV}",
+        props=["C01", "C05"]))
+
+
+_setup_spe = setup
+
+
+def setup(E):  # noqa: F811
+    _setup_spe(E)
+    _dup_transfer(E)
